@@ -208,7 +208,7 @@ func (r *Region) WriteSector(x, z int, data []byte) error {
 		if err != nil {
 			return err
 		}
-		r.Timestamps[x][z] = int32(time.Now().Unix())
+		r.Timestamps[z][x] = int32(time.Now().Unix())
 	}
 
 	_, err := r.f.Seek(4096*int64(n), 0)
